@@ -369,18 +369,32 @@ func (n *VNode) VCanon() map[string]string {
 	}
 	out["setsize"] = fmt.Sprint(rawdb.ReadUTXOSetSize(db, head.Hash()))
 	if n.Cfg.IndexUtxos {
-		var ab bytes.Buffer
-		for _, pre := range [][]byte{rawdb.AddressUtxosPrefix} {
-			it := db.NewIterator(pre, nil)
-			for it.Next() {
-				if bytes.HasPrefix(it.Key(), rawdb.AddressUtxosWithoutHeightPrefix) {
-					continue
-				}
-				fmt.Fprintf(&ab, "%x=%x;", it.Key(), it.Value())
+		// address -> set of outpoints (order inside the stored list is not part of the meaning)
+		var lines []string
+		it := db.NewIterator(rawdb.AddressUtxosWithoutHeightPrefix, nil)
+		for it.Next() {
+			k := it.Key()
+			if len(k) != len(rawdb.AddressUtxosWithoutHeightPrefix)+20 {
+				continue
 			}
-			it.Release()
+			pl := new(types.ProtoAddressOutPoints)
+			if err := proto.Unmarshal(it.Value(), pl); err != nil {
+				lines = append(lines, fmt.Sprintf("%x=UNDECODABLE", k))
+				continue
+			}
+			var ops []string
+			for _, o := range pl.OutPoints {
+				ops = append(ops, fmt.Sprintf("%x:%d/d%d/l%x", o.GetHash().GetValue(), o.GetIndex(), o.GetDenomination(), o.GetLock()))
+			}
+			if len(ops) == 0 {
+				continue
+			}
+			sort.Strings(ops)
+			lines = append(lines, fmt.Sprintf("%x=%v", k[len(rawdb.AddressUtxosWithoutHeightPrefix):], ops))
 		}
-		out["addrindex"] = ab.String()
+		it.Release()
+		sort.Strings(lines)
+		out["addrindex"] = fmt.Sprint(lines)
 	}
 	return out
 }
